@@ -84,7 +84,8 @@ def obligations(cx):
 def replay_case(r):
     m = dict(r.get('model') or {})
     from . import procs_native_case as PN
-    c = PN.case_from(r['name'], m)
-    for k in ('c', 'kf'):
-        if isinstance(m.get(k), (int, float)) and 1e-3 <= m[k] <= 1e3: c[k] = m[k]
-    return c
+    cs = PN.case_from(r['name'], m)
+    for c in cs:
+        for k in ('c', 'kf'):
+            if isinstance(m.get(k), (int, float)) and 1e-3 <= m[k] <= 1e3: c[k] = m[k]
+    return cs
